@@ -40,12 +40,285 @@ theorem readData_fits (mode : Mode) (st : St) (av data : Bytes) (datalen : Nat) 
       | some rx => simp only [List.length_append, List.length_take] at *; omega
     · exact ⟨by simp only [List.length_drop]; omega, fun pl hp => by cases hp⟩
 
-/- NOT PROVED (time): the same for the whole of `coap_ws_read`'s frame phase,
+/-! ### `coap_ws_read` with an arbitrary caller buffer: normal form, case rules, `readFrame_fits`, `readFrame_ok` -/
 
-    theorem readFrame_fits (mode) (datalen) : ∀ fuel st av, ReadFits datalen av (readFrame mode datalen fuel st av)
+def keyOf (st : St) (b1 : UInt8) (r' : Bytes) : Bytes :=
+  if b1.toNat / 128 = 1 then (r'.drop (hExt b1.toNat)).take 4 else st.maskKey
+/-- the reader state once a binary frame's header is complete (`all_hdr_in = 1`, mask key and `data_size` decoded) -/
+def hdrSt (st : St) (b1 : UInt8) (r' : Bytes) : St :=
+  { st with allHdrIn := true, maskKey := keyOf st b1 r', dataSize := hSize b1.toNat r' }
+def unmaskIf (mode : Mode) (key data : Bytes) : Bytes := if mode = .server then xorKey key 0 data else data
 
-  (the header branches return `size` or `ret = size` bytes with `size ≤ datalen` checked just before; induction over
-  the `goto next_frame` fuel).  For datalen = 1472 and states of the invariant it follows from `readFrame_spec`. -/
+/-- `readFrame` (any caller buffer size `datalen`) once the two fixed header bytes are in `rd_header`;
+`st` already has `rdHeader := b0 :: b1 :: r'` -/
+def afterHdrD (mode : Mode) (datalen fuel : Nat) (st : St) (b0 b1 : UInt8) (r' : Bytes) (av : Bytes) : Ret × St × Bytes :=
+  if mode = .server ∧ ¬ b1.toNat / 128 = 1 then (.closed, st, av) else
+  if r'.length < hExtra b1.toNat then (.zero, st, av) else
+  if b0.toNat % 16 ≠ 2 then (.closed, st, av) else
+  if hSize b1.toNat r' > datalen then (.closed, hdrSt st b1 r', av) else
+  if hSize b1.toNat r' = 0 then
+    if (r'.drop (hExtra b1.toNat)).length > 0 then
+      readFrame mode datalen fuel { hdrSt st b1 r' with rdHeader := r'.drop (hExtra b1.toNat), allHdrIn := false } av
+    else (.zero, { hdrSt st b1 r' with rdHeader := r'.drop (hExtra b1.toNat), allHdrIn := false }, av)
+  else if (r'.drop (hExtra b1.toNat)).length > 0 then
+    if (r'.drop (hExtra b1.toNat)).length ≤ hSize b1.toNat r' then
+      if (r'.drop (hExtra b1.toNat)).length = hSize b1.toNat r' then
+        (.pkt (unmaskIf mode (keyOf st b1 r') (r'.drop (hExtra b1.toNat))),
+          { hdrSt st b1 r' with dataOfs := (r'.drop (hExtra b1.toNat)).length, allHdrIn := false, rdHeader := [] }, av)
+      else readData mode { hdrSt st b1 r' with dataOfs := (r'.drop (hExtra b1.toNat)).length } av (r'.drop (hExtra b1.toNat)) datalen
+    else
+      (.pkt (unmaskIf mode (keyOf st b1 r') ((r'.drop (hExtra b1.toNat)).take (hSize b1.toNat r'))),
+        { hdrSt st b1 r' with dataOfs := hSize b1.toNat r', allHdrIn := false,
+                              rdHeader := (r'.drop (hExtra b1.toNat)).drop (hSize b1.toNat r') }, av)
+  else readData mode { hdrSt st b1 r' with dataOfs := 0 } av [] datalen
+
+theorem readFrame_hdrD (mode : Mode) (datalen fuel : Nat) (st : St) (av : Bytes) (b0 b1 : UInt8) (r' : Bytes)
+    (hall : st.allHdrIn = false)
+    (hh : st.rdHeader ++ av.take (fsCap - st.rdHeader.length) = b0 :: b1 :: r') :
+    readFrame mode datalen (fuel + 1) st av =
+      afterHdrD mode datalen fuel { st with rdHeader := b0 :: b1 :: r' } b0 b1 r' (av.drop (fsCap - st.rdHeader.length)) := by
+  obtain ⟨up, H, seen, p, all, key, ofs, size, rx⟩ := st
+  simp only at hall hh
+  subst hall
+  have e1 : (if b1.toNat % 128 = 127 then 8 else if b1.toNat % 128 = 126 then 2 else 0) = hExt b1.toNat := rfl
+  have e2 : hExt b1.toNat + (if b1.toNat / 128 = 1 then 4 else 0) = hExtra b1.toNat := rfl
+  have e3 : List.length r' + 1 + 1 - 2 - hExtra b1.toNat = (r'.drop (hExtra b1.toNat)).length := by
+    rw [List.length_drop]; omega
+  have hle := hExtra_le b1.toNat
+  have e4 : ¬ (2 + hExtra b1.toNat > fsCap) := by simp only [fsCap]; omega
+  have e5 : ¬ (List.length r' + 1 + 1 < 2) := by omega
+  have e6 : (List.length r' + 1 + 1 < 2 + hExtra b1.toNat) = (r'.length < hExtra b1.toNat) := by
+    apply propext; constructor <;> intro h <;> omega
+  simp only [readFrame, hh, Bool.false_eq_true, if_false, List.length_cons, rd_cons_zero, rd_cons_succ, size_eq, e1, e2,
+    e3, e4, e5, e6, drop2, Nat.add_assoc]
+  simp only [afterHdrD, hdrSt, keyOf, unmaskIf, List.drop_drop]
+  by_cases hop : b0.toNat % 16 = 2
+  · simp [hop]
+  · by_cases h8 : b0.toNat % 16 = 8
+    · simp [h8]
+    · simp [hop, h8]
+
+theorem readFrame_shortD (mode : Mode) (datalen fuel : Nat) (st : St) (av : Bytes) (hall : st.allHdrIn = false)
+    (hh : (st.rdHeader ++ av.take (fsCap - st.rdHeader.length)).length < 2) :
+    readFrame mode datalen (fuel + 1) st av =
+      (.zero, { st with rdHeader := st.rdHeader ++ av.take (fsCap - st.rdHeader.length) },
+        av.drop (fsCap - st.rdHeader.length)) := by
+  simp only [readFrame, hall, Bool.false_eq_true, if_false, hh, if_true]
+
+theorem readFrame_dataD (mode : Mode) (datalen fuel : Nat) (st : St) (av : Bytes) (hall : st.allHdrIn = true) :
+    readFrame mode datalen (fuel + 1) st av = readData mode st av [] datalen := by
+  simp only [readFrame, hall, if_true]
+
+/-- the three ways a `coap_ws_read` call starts, as a case rule -/
+theorem readFrame_cases (mode : Mode) (datalen fuel : Nat) (st : St) (av : Bytes)
+    (P : Ret × St × Bytes → Prop)
+    (hdata : st.allHdrIn = true → P (readData mode st av [] datalen))
+    (hshort : st.allHdrIn = false → (st.rdHeader ++ av.take (fsCap - st.rdHeader.length)).length < 2 →
+      P (.zero, { st with rdHeader := st.rdHeader ++ av.take (fsCap - st.rdHeader.length) }, av.drop (fsCap - st.rdHeader.length)))
+    (hhdr : ∀ b0 b1 r', st.allHdrIn = false → st.rdHeader ++ av.take (fsCap - st.rdHeader.length) = b0 :: b1 :: r' →
+      P (afterHdrD mode datalen fuel { st with rdHeader := b0 :: b1 :: r' } b0 b1 r' (av.drop (fsCap - st.rdHeader.length)))) :
+    P (readFrame mode datalen (fuel + 1) st av) := by
+  cases hall : st.allHdrIn with
+  | true => rw [readFrame_dataD _ _ _ _ _ hall]; exact hdata hall
+  | false =>
+    match hh : st.rdHeader ++ av.take (fsCap - st.rdHeader.length) with
+    | [] => rw [readFrame_shortD _ _ _ _ _ hall (by rw [hh]; simp)]; rw [hh] at hshort ⊢; exact hshort hall (by simp)
+    | [b] => rw [readFrame_shortD _ _ _ _ _ hall (by rw [hh]; simp)]; rw [hh] at hshort ⊢; exact hshort hall (by simp)
+    | b0 :: b1 :: r' => rw [readFrame_hdrD _ _ _ _ _ b0 b1 r' hall hh]; exact hhdr b0 b1 r' hall hh
+
+
+/-- the exits of `coap_ws_read` once the two fixed header bytes are in, as a case rule -/
+theorem afterHdrD_cases (mode : Mode) (datalen fuel : Nat) (st : St) (b0 b1 : UInt8) (r' av : Bytes)
+    (P : Ret × St × Bytes → Prop)
+    (h1002 : mode = .server → ¬ b1.toNat / 128 = 1 → P (.closed, st, av))
+    (hinc : r'.length < hExtra b1.toNat → P (.zero, st, av))
+    (hop : hExtra b1.toNat ≤ r'.length → b0.toNat % 16 ≠ 2 → P (.closed, st, av))
+    (hbig : hExtra b1.toNat ≤ r'.length → b0.toNat % 16 = 2 → hSize b1.toNat r' > datalen → P (.closed, hdrSt st b1 r', av))
+    (hnext : hExtra b1.toNat < r'.length → b0.toNat % 16 = 2 → hSize b1.toNat r' = 0 →
+      P (readFrame mode datalen fuel { hdrSt st b1 r' with rdHeader := r'.drop (hExtra b1.toNat), allHdrIn := false } av))
+    (hempty : hExtra b1.toNat = r'.length → b0.toNat % 16 = 2 → hSize b1.toNat r' = 0 →
+      P (.zero, { hdrSt st b1 r' with rdHeader := r'.drop (hExtra b1.toNat), allHdrIn := false }, av))
+    (hall : hExtra b1.toNat < r'.length → b0.toNat % 16 = 2 → hSize b1.toNat r' ≤ datalen →
+      (r'.drop (hExtra b1.toNat)).length = hSize b1.toNat r' →
+      P (.pkt (unmaskIf mode (keyOf st b1 r') (r'.drop (hExtra b1.toNat))),
+          { hdrSt st b1 r' with dataOfs := (r'.drop (hExtra b1.toNat)).length, allHdrIn := false, rdHeader := [] }, av))
+    (hpart : hExtra b1.toNat < r'.length → b0.toNat % 16 = 2 → hSize b1.toNat r' ≤ datalen →
+      (r'.drop (hExtra b1.toNat)).length < hSize b1.toNat r' →
+      P (readData mode { hdrSt st b1 r' with dataOfs := (r'.drop (hExtra b1.toNat)).length } av (r'.drop (hExtra b1.toNat)) datalen))
+    (hmore : hExtra b1.toNat < r'.length → b0.toNat % 16 = 2 → hSize b1.toNat r' ≤ datalen → hSize b1.toNat r' ≠ 0 →
+      hSize b1.toNat r' < (r'.drop (hExtra b1.toNat)).length →
+      P (.pkt (unmaskIf mode (keyOf st b1 r') ((r'.drop (hExtra b1.toNat)).take (hSize b1.toNat r'))),
+        { hdrSt st b1 r' with dataOfs := hSize b1.toNat r', allHdrIn := false,
+                              rdHeader := (r'.drop (hExtra b1.toNat)).drop (hSize b1.toNat r') }, av))
+    (hnone : hExtra b1.toNat = r'.length → b0.toNat % 16 = 2 → hSize b1.toNat r' ≤ datalen → hSize b1.toNat r' ≠ 0 →
+      P (readData mode { hdrSt st b1 r' with dataOfs := 0 } av [] datalen)) :
+    P (afterHdrD mode datalen fuel st b0 b1 r' av) := by
+  unfold afterHdrD
+  by_cases c1 : mode = .server ∧ ¬ b1.toNat / 128 = 1
+  · rw [if_pos c1]; exact h1002 c1.1 c1.2
+  rw [if_neg c1]
+  by_cases c2 : r'.length < hExtra b1.toNat
+  · rw [if_pos c2]; exact hinc c2
+  rw [if_neg c2]
+  by_cases c3 : b0.toNat % 16 ≠ 2
+  · rw [if_pos c3]; exact hop (by omega) c3
+  rw [if_neg c3]
+  have c3' : b0.toNat % 16 = 2 := by omega
+  by_cases c4 : hSize b1.toNat r' > datalen
+  · rw [if_pos c4]; exact hbig (by omega) c3' c4
+  rw [if_neg c4]
+  have hlen : (r'.drop (hExtra b1.toNat)).length = r'.length - hExtra b1.toNat := List.length_drop
+  by_cases c5 : hSize b1.toNat r' = 0
+  · rw [if_pos c5]
+    by_cases c6 : (r'.drop (hExtra b1.toNat)).length > 0
+    · rw [if_pos c6]; exact hnext (by omega) c3' c5
+    · rw [if_neg c6]; exact hempty (by omega) c3' c5
+  rw [if_neg c5]
+  by_cases c6 : (r'.drop (hExtra b1.toNat)).length > 0
+  · rw [if_pos c6]
+    by_cases c7 : (r'.drop (hExtra b1.toNat)).length ≤ hSize b1.toNat r'
+    · rw [if_pos c7]
+      by_cases c8 : (r'.drop (hExtra b1.toNat)).length = hSize b1.toNat r'
+      · rw [if_pos c8]; exact hall (by omega) c3' (by omega) c8
+      · rw [if_neg c8]; exact hpart (by omega) c3' (by omega) (by omega)
+    · rw [if_neg c7]; exact hmore (by omega) c3' (by omega) c5 (by omega)
+  · rw [if_neg c6]; exact hnone (by omega) c3' (by omega) c5
+
+theorem ReadFits_trans {datalen : Nat} {av av1 : Bytes} {r : Ret × St × Bytes} (h : ReadFits datalen av1 r)
+    (hl : av1.length ≤ av.length) : ReadFits datalen av r := ⟨Nat.le_trans h.1 hl, h.2⟩
+
+theorem ReadFits_nopkt {datalen : Nat} {av : Bytes} {ret : Ret} {st : St} (h : ∀ pl, ret ≠ .pkt pl) :
+    ReadFits datalen av (ret, st, av) := ⟨Nat.le_refl _, fun pl hp => (h pl hp).elim⟩
+
+theorem unmaskIf_length (mode : Mode) (key bs : Bytes) : (unmaskIf mode key bs).length = bs.length :=
+  maskIf_length _ key bs
+
+/-- `coap_ws_read`'s frame phase, ANY reader state, ANY caller buffer size: bytes are only consumed from the front of
+what is available and a payload handed back has at most `datalen` bytes -/
+theorem readFrame_fits (mode : Mode) (datalen : Nat) : ∀ (fuel : Nat) (st : St) (av : Bytes),
+    ReadFits datalen av (readFrame mode datalen fuel st av) := by
+  intro fuel
+  induction fuel with
+  | zero => intro st av; exact ReadFits_nopkt (by intro pl h; cases h)
+  | succ f ih =>
+    intro st av
+    have hdrop : (av.drop (fsCap - st.rdHeader.length)).length ≤ av.length := by
+      simp only [List.length_drop]; omega
+    apply readFrame_cases
+    · intro _; exact readData_fits mode st av [] datalen
+    · intro _ _; exact ⟨hdrop, fun pl hp => by cases hp⟩
+    · intro b0 b1 r' _ _
+      refine ReadFits_trans ?_ hdrop
+      apply afterHdrD_cases
+      · intro _ _; exact ReadFits_nopkt (by intro pl h; cases h)
+      · intro _; exact ReadFits_nopkt (by intro pl h; cases h)
+      · intro _ _; exact ReadFits_nopkt (by intro pl h; cases h)
+      · intro _ _ _; exact ReadFits_nopkt (by intro pl h; cases h)
+      · intro _ _ _; exact ih _ _
+      · intro _ _ _; exact ReadFits_nopkt (by intro pl h; cases h)
+      · intro _ _ hs hl
+        refine ⟨Nat.le_refl _, fun pl hp => ?_⟩
+        simp only [Ret.pkt.injEq] at hp
+        subst hp
+        rw [unmaskIf_length]; omega
+      · intro _ _ _ _; exact readData_fits mode _ _ _ datalen
+      · intro _ _ hs _ hl
+        refine ⟨Nat.le_refl _, fun pl hp => ?_⟩
+        simp only [Ret.pkt.injEq] at hp
+        subst hp
+        rw [unmaskIf_length, List.length_take]; omega
+      · intro _ _ _ _; exact readData_fits mode _ _ _ datalen
+
+/-- what keeps `coap_ws_read` inside its buffers, for a caller buffer of `datalen` bytes: `hdr_ofs ≤ sizeof(rd_header)`
+(so `sizeof(rd_header) - hdr_ofs` does not wrap) and, while a frame that fits the caller's buffer is in progress,
+`data_ofs ≤ data_size` (so the destination `&data[data_ofs]`, length `data_size - data_ofs`, lies inside the buffer and
+the unsigned difference does not wrap).  A frame refused with 1009 leaves `all_hdr_in` set with `data_size > datalen` and a
+stale `data_ofs`: nothing is demanded of it, the data part returns -1 before it uses either. -/
+def RdOk (datalen : Nat) (st : St) : Prop :=
+  st.rdHeader.length ≤ fsCap ∧ (st.allHdrIn = true → st.dataSize ≤ datalen → st.dataOfs ≤ st.dataSize)
+
+/-- a smaller caller buffer asks less: the state `coap_read_session` (1472 bytes) leaves is fine for `coap_ws_close`
+(100 bytes) -/
+theorem RdOk_mono {d1 d2 : Nat} {st : St} (h : RdOk d1 st) (hd : d2 ≤ d1) : RdOk d2 st :=
+  ⟨h.1, fun ha hs => h.2 ha (Nat.le_trans hs hd)⟩
+
+/-- "Get in (remaining) data": the bytes read go to `[data_ofs, data_ofs + got)` of a `data_size ≤ datalen` byte
+destination, the state stays `RdOk`, no `oob` -/
+theorem readData_ok (mode : Mode) (st : St) (av data : Bytes) (datalen : Nat) (hl : st.rdHeader.length ≤ fsCap)
+    (ho : st.dataSize ≤ datalen → st.dataOfs ≤ st.dataSize) :
+    RdOk datalen (readData mode st av data datalen).2.1 ∧ (readData mode st av data datalen).1 ≠ .oob ∧
+    (st.dataSize ≤ datalen → st.dataOfs + (av.take (st.dataSize - st.dataOfs)).length ≤ datalen) := by
+  refine ⟨?_, ?_, ?_⟩
+  · unfold readData
+    by_cases h : st.dataSize > datalen
+    · rw [if_pos h]; exact ⟨hl, fun _ hs => by dsimp only at hs ⊢; omega⟩
+    · rw [if_neg h]
+      simp only
+      split
+      · exact ⟨by simp [fsCap], fun ha => by cases ha⟩
+      · refine ⟨hl, fun _ _ => ?_⟩
+        have := ho (by omega)
+        simp only [List.length_take]
+        omega
+  · unfold readData
+    by_cases h : st.dataSize > datalen
+    · rw [if_pos h]; intro hh; cases hh
+    · rw [if_neg h]
+      simp only
+      split <;> (intro hh; cases hh)
+  · intro hs
+    have := ho hs
+    simp only [List.length_take]
+    omega
+
+theorem RdOk_noall {datalen : Nat} {st : St} (hl : st.rdHeader.length ≤ fsCap) (ha : st.allHdrIn = false) : RdOk datalen st :=
+  ⟨hl, fun h => by rw [ha] at h; cases h⟩
+
+/-- `coap_ws_read`'s frame phase keeps `RdOk` and never indexes outside `rd_header` (`oob`), for every caller buffer size -/
+theorem readFrame_ok (mode : Mode) (datalen : Nat) : ∀ (fuel : Nat) (st : St) (av : Bytes), RdOk datalen st →
+    RdOk datalen (readFrame mode datalen fuel st av).2.1 ∧ (readFrame mode datalen fuel st av).1 ≠ .oob := by
+  intro fuel
+  induction fuel with
+  | zero => intro st av h; exact ⟨h, by intro hh; cases hh⟩
+  | succ f ih =>
+    intro st av hok
+    apply readFrame_cases mode datalen f st av (fun r => RdOk datalen r.2.1 ∧ r.1 ≠ .oob)
+    · intro ha
+      have := readData_ok mode st av [] datalen hok.1 (hok.2 ha)
+      exact ⟨this.1, this.2.1⟩
+    · intro ha hlen
+      refine ⟨RdOk_noall ?_ ha, by intro hh; cases hh⟩
+      simp only [List.length_append] at hlen ⊢
+      simp only [fsCap] at *
+      omega
+    · intro b0 b1 r' ha hh
+      have hlen : r'.length + 2 ≤ fsCap := by
+        have : (st.rdHeader ++ av.take (fsCap - st.rdHeader.length)).length ≤ fsCap := by
+          have := hok.1
+          simp only [List.length_append, List.length_take]; omega
+        rw [hh] at this
+        simpa using this
+      have hl2 : ({ st with rdHeader := b0 :: b1 :: r' } : St).rdHeader.length ≤ fsCap := by simpa using hlen
+      have hdl : (r'.drop (hExtra b1.toNat)).length ≤ fsCap := by simp only [List.length_drop]; omega
+      apply afterHdrD_cases mode datalen f _ b0 b1 r' _ (fun r => RdOk datalen r.2.1 ∧ r.1 ≠ .oob)
+      · intro _ _; exact ⟨RdOk_noall hl2 ha, by intro hh; cases hh⟩
+      · intro _; exact ⟨RdOk_noall hl2 ha, by intro hh; cases hh⟩
+      · intro _ _; exact ⟨RdOk_noall hl2 ha, by intro hh; cases hh⟩
+      · intro _ _ hbig; exact ⟨⟨hl2, fun _ hs => by simp only [hdrSt] at hs; omega⟩, by intro hh; cases hh⟩
+      · intro _ _ _; exact ih _ _ (RdOk_noall hdl rfl)
+      · intro _ _ _; exact ⟨RdOk_noall hdl rfl, by intro hh; cases hh⟩
+      · intro _ _ _ _; exact ⟨RdOk_noall (by simp [fsCap]) rfl, by intro hh; cases hh⟩
+      · intro _ _ _ hlt
+        have := readData_ok mode { hdrSt { st with rdHeader := b0 :: b1 :: r' } b1 r' with dataOfs := (r'.drop (hExtra b1.toNat)).length }
+          (av.drop (fsCap - st.rdHeader.length)) (r'.drop (hExtra b1.toNat)) datalen hl2 (fun _ => by simp only [hdrSt]; omega)
+        exact ⟨this.1, this.2.1⟩
+      · intro _ _ _ _ _
+        refine ⟨RdOk_noall ?_ rfl, by intro hh; cases hh⟩
+        simp only [List.length_drop]; omega
+      · intro _ _ _ _
+        have := readData_ok mode { hdrSt { st with rdHeader := b0 :: b1 :: r' } b1 r' with dataOfs := 0 }
+          (av.drop (fsCap - st.rdHeader.length)) [] datalen hl2 (fun _ => Nat.zero_le _)
+        exact ⟨this.1, this.2.1⟩
 
 /-! ### the drain loop of coap_ws_close -/
 
